@@ -146,6 +146,13 @@ func scenario(p Params) *vexplore.Scenario {
 						monitor = append(monitor, site+" entered on a closed index header")
 						panic("verif monitor: " + site + " on closed header")
 					}
+					// the lookup is now inside the header: let everything else run; the header must still be
+					// open afterwards (unloading needs the write lock, which a lookup in progress excludes)
+					vsync.Point("inside-" + site)
+					if closed[recv] {
+						monitor = append(monitor, "index header closed while "+site+" was still reading it")
+						panic("verif monitor: header closed during " + site)
+					}
 				}
 			}
 			body := func() {
@@ -236,7 +243,8 @@ func TestCheck(t *testing.T) {
 	ps := []Params{
 		{Readers: [][]string{{"po", "names"}, {"values"}}, Sweeps: 1, Warm: true},
 		{Readers: [][]string{{"symbol"}, {"pos", "po"}}, Sweeps: 2, Warm: false},
-		{Readers: [][]string{{"po"}, {"names"}}, Sweeps: 1, Close: true, Warm: true},
+		{Readers: [][]string{{"pos"}, {"names"}}, Sweeps: 1, Close: true, Warm: true},
+		{Readers: [][]string{{"po"}, {"values"}}, Close: true, Warm: true},
 	}
 	if r.Thorough() {
 		ps = append(ps,
@@ -244,6 +252,12 @@ func TestCheck(t *testing.T) {
 			Params{Readers: [][]string{{"version", "values"}, {"symbol", "names"}}, Sweeps: 1, Close: true, Warm: false},
 			Params{Readers: [][]string{{"pos"}, {"po"}, {"names"}}, Sweeps: 1, Warm: true},
 		)
+	}
+	if r.Thorough() {
+		// every lookup kind against a concurrent Close and a concurrent sweep
+		for _, op := range allOps {
+			ps = append(ps, Params{Readers: [][]string{{op}, {"version"}}, Close: true, Warm: true})
+		}
 	}
 	if !reflect.DeepEqual(len(rigWant), len(allOps)) {
 		t.Fatalf("HARNESS-ERROR reference answers incomplete")
